@@ -11,6 +11,7 @@ import (
 	"errors"
 	"fmt"
 	"hash/crc32"
+	"io"
 	"math/rand"
 	"os"
 	"os/exec"
@@ -20,6 +21,7 @@ import (
 	"strconv"
 	"strings"
 	"sync"
+	"syscall"
 	"time"
 
 	"github.com/rogpeppe/go-internal/lockedfile"
@@ -37,6 +39,18 @@ func helperMain(args []string) {
 		helperStress(args[1:])
 	case "sysop":
 		helperSysop(args[1], args[2])
+	case "hold":
+		// keeps whatever descriptors it inherited (exec.Cmd.ExtraFiles) open until stdin is closed
+		fmt.Println("holding")
+		io.Copy(io.Discard, os.Stdin)
+	case "trylock":
+		f, err := lockedfile.Edit(args[1])
+		if err != nil {
+			fmt.Println("error:", err)
+			os.Exit(1)
+		}
+		f.Close()
+		fmt.Println("locked")
 	}
 }
 
@@ -198,6 +212,7 @@ func helperStress(a []string) {
 }
 
 func realKernel(res *corr.Result, tier string, seed int64, scratch string) {
+	dupRelease(res, scratch)
 	procs, gor, iters := 4, 4, 2000
 	if tier == "thorough" {
 		procs, gor, iters = 6, 6, 12000
@@ -266,6 +281,176 @@ func realKernel(res *corr.Result, tier string, seed int64, scratch string) {
 	res.Extra["real_kernel"] = map[string]any{"processes": procs, "goroutines_per_process": gor, "iterations_per_goroutine": iters,
 		"critical_sections": sum, "counter": got, "seconds": time.Since(t0).Seconds(),
 		"note": "unmodified package on the real kernel; overlap witness = unlocked side file; supporting evidence only"}
+}
+
+// ---- Close must release the lock itself, also when the open file description is shared
+
+const releaseBound = 3 * time.Second // a lock that Close released is acquired in microseconds
+
+// acquireWithin reports whether a write lock on path can be taken within releaseBound; the attempt is left
+// running (it releases at once) and `wait` joins it.
+func acquireWithin(path string) (ok bool, wait func()) {
+	done := make(chan error, 1)
+	go func() {
+		f, err := lockedfile.Edit(path)
+		if err == nil {
+			f.Close()
+		}
+		done <- err
+	}()
+	select {
+	case err := <-done:
+		return err == nil, func() {}
+	case <-time.After(releaseBound):
+		return false, func() {
+			select {
+			case <-done:
+			case <-time.After(10 * time.Second):
+			}
+		}
+	}
+}
+
+// fdOfPath finds a descriptor of this process that refers to path and is not in `before`.
+func fdsOfPath(path string) map[int]bool {
+	out := map[int]bool{}
+	ents, _ := os.ReadDir("/proc/self/fd")
+	for _, e := range ents {
+		n, err := strconv.Atoi(e.Name())
+		if err != nil {
+			continue
+		}
+		if l, err := os.Readlink("/proc/self/fd/" + e.Name()); err == nil && l == path {
+			out[n] = true
+		}
+	}
+	return out
+}
+
+// dupRelease: "the lock is held … until Close (or the returned unlock function) is called, and is released by
+// that call" — also when another descriptor (dup) or another process (inherited descriptor) shares the open
+// file description at that moment.  flock(2) locks belong to the description: without the explicit LOCK_UN
+// in closeFile the lock would survive Close until the last sharer closes.
+func dupRelease(res *corr.Result, scratch string) {
+	dir := filepath.Join(scratch, "dup")
+	os.MkdirAll(dir, 0o777)
+	exe, _ := os.Executable()
+	report := func(variant, what string) {
+		res.Violate("C06", "real-kernel dup-release "+variant, what, "lock-not-released-by-close")
+	}
+	type opener struct {
+		name string
+		open func(path string) (*lockedfile.File, error)
+	}
+	openers := []opener{
+		{"Edit", lockedfile.Edit},
+		{"Create", lockedfile.Create},
+		{"OpenFile(O_WRONLY|O_CREATE)", func(p string) (*lockedfile.File, error) {
+			return lockedfile.OpenFile(p, os.O_WRONLY|os.O_CREATE, 0o666)
+		}},
+		{"OpenFile(O_RDWR|O_APPEND)", func(p string) (*lockedfile.File, error) {
+			return lockedfile.OpenFile(p, os.O_RDWR|os.O_APPEND, 0o666)
+		}},
+		{"Open (read lock, then a writer)", lockedfile.Open},
+	}
+	// (a) in-process: a dup'ed descriptor is still open when Close is called
+	for i, o := range openers {
+		path := filepath.Join(dir, fmt.Sprintf("f%d", i))
+		os.WriteFile(path, []byte("x"), 0o666)
+		f, err := o.open(path)
+		if err != nil {
+			res.Observations = append(res.Observations, "dup-release: "+o.name+": "+err.Error())
+			continue
+		}
+		d, err := syscall.Dup(int(f.Fd()))
+		if err != nil {
+			f.Close()
+			continue
+		}
+		f.Close()
+		res.OracleChecked["C06"]++
+		ok, wait := acquireWithin(path)
+		syscall.Close(d)
+		wait()
+		if !ok {
+			report("dup "+o.name, fmt.Sprintf("after %s + Close, with a dup of the descriptor still open, a write lock on the file could not be taken within %v: Close did not release the lock", o.name, releaseBound))
+		}
+	}
+	// Mutex: the unlock function must release although the lock file's description is shared
+	{
+		path := filepath.Join(dir, "mu")
+		before := fdsOfPath(path)
+		unlock, err := lockedfile.MutexAt(path).Lock()
+		if err == nil {
+			d := -1
+			for fd := range fdsOfPath(path) {
+				if !before[fd] {
+					d, _ = syscall.Dup(fd)
+				}
+			}
+			unlock()
+			if d >= 0 {
+				res.OracleChecked["C06"]++
+				done := make(chan bool, 1)
+				go func() {
+					u, err := lockedfile.MutexAt(path).Lock()
+					if err == nil {
+						u()
+					}
+					done <- err == nil
+				}()
+				ok := false
+				select {
+				case ok = <-done:
+					syscall.Close(d)
+				case <-time.After(releaseBound):
+					syscall.Close(d)
+					select {
+					case <-done:
+					case <-time.After(10 * time.Second):
+					}
+				}
+				if !ok {
+					report("dup Mutex", fmt.Sprintf("after Mutex.Lock + unlock, with a dup of the lock file's descriptor still open, the Mutex could not be locked again within %v", releaseBound))
+				}
+			}
+		}
+	}
+	// (b) cross-process: a child process has inherited the descriptor and is still running at Close
+	if exe != "" {
+		path := filepath.Join(dir, "x")
+		os.WriteFile(path, []byte("x"), 0o666)
+		f, err := lockedfile.Edit(path)
+		if err == nil {
+			d, derr := syscall.Dup(int(f.Fd()))
+			if derr != nil {
+				f.Close()
+				return
+			}
+			inh := os.NewFile(uintptr(d), "inherited")
+			holder := exec.Command(exe, "helper", "hold")
+			holder.ExtraFiles = []*os.File{inh}
+			stdin, _ := holder.StdinPipe()
+			stdout, _ := holder.StdoutPipe()
+			if err := holder.Start(); err != nil {
+				inh.Close()
+				f.Close()
+				return
+			}
+			bufio.NewReader(stdout).ReadString('\n') // the child is up and owns its copy
+			inh.Close()                               // the parent's dup goes away: only the child shares the description
+			f.Close()
+			res.OracleChecked["C06"]++
+			ctx, cancel := context.WithTimeout(context.Background(), releaseBound)
+			out, terr := exec.CommandContext(ctx, exe, "helper", "trylock", path).Output()
+			cancel()
+			stdin.Close()
+			holder.Wait()
+			if terr != nil || !strings.Contains(string(out), "locked") {
+				report("inherited descriptor", fmt.Sprintf("after Edit + Close, while a child process that inherited the descriptor is still running, another process could not write-lock the file within %v: Close did not release the lock", releaseBound))
+			}
+		}
+	}
 }
 
 // ---- strace
